@@ -91,6 +91,105 @@ def check_decode(run, T, name, nominal, data):
             run.count('decode.raised_on_noncanonical_in_width')
 
 
+def stream_kinds(run, types, thorough):
+    """The decode result must not depend on what kind of file object the
+    bytes come from or on how they trickle in: the same encodings are decoded
+    from io.BytesIO and from an io.BufferedReader (what open(..., 'rb') and
+    socket.makefile('rb') return) over a raw stream that delivers them in every
+    possible partition into chunks."""
+    import io
+
+    class ChunkedRaw(io.RawIOBase):
+        def __init__(self, chunks):
+            self.chunks = list(chunks)
+
+        def readable(self):
+            return True
+
+        def readinto(self, b):
+            if not self.chunks:
+                return 0
+            c = self.chunks[0]
+            n = min(len(b), len(c))
+            b[:n] = c[:n]
+            if n == len(c):
+                self.chunks.pop(0)
+            else:
+                self.chunks[0] = c[n:]
+            return n
+
+    def outcome(T, stream):
+        try:
+            return ('ret', T.read(stream))
+        except EOFError:
+            return ('raise', 'EOFError')
+        except ValueError:
+            return ('raise', 'ValueError')
+        except Exception as e:
+            return ('raise', type(e).__name__)
+    rng = run.rng('stream-kinds')
+    vectors = []
+    for k in range(0, 64, 7):
+        for n in (2 ** k - 1, 2 ** k, 2 ** k + 1):
+            if n >= 0:
+                vectors.append(ref.encode(n))
+    vectors += [ref.encode(2 ** 31 - 1), ref.encode(2 ** 32 - 1),
+                ref.encode(2 ** 63 - 1), ref.encode(2 ** 64 - 1),
+                b'\x80\x00', b'\x80\x80\x00', b'\xff\xff\xff\xff\xff\x01',
+                b'\x80', b'\xff\xff', b'\x80' * 11 + b'\x01']
+    vectors += [ref.encode(rng.getrandbits(rng.randrange(1, 65)))
+                for _ in range(40 if thorough else 10)]
+    for vi, enc in enumerate(sorted(set(vectors))):
+        if not run.mine(vi):
+            continue
+        data = enc + b'\x5a\x5b'
+        L = len(enc)
+        if L <= 7:
+            masks = range(2 ** (L - 1)) if L else [0]
+        else:
+            masks = sorted({0, 2 ** (L - 1) - 1} |
+                           {rng.getrandbits(L - 1) for _ in range(40)})
+        for T, name, nominal in types:
+            base = outcome(T, CountingStream(data))
+            plain = io.BytesIO(data)
+            o = outcome(T, plain)
+            rest = plain.read()
+            ok_rest = None
+            if base[0] == 'ret':
+                ok_rest = data[ref.terminator_index(data) + 1:]
+            if o != base or (ok_rest is not None and rest != ok_rest):
+                run.violation('decode/%s/stream-kind/BytesIO' % name, 'decoding'
+                              ' from io.BytesIO differs from decoding the same'
+                              ' bytes from a plain read() stream', {
+                                  'data': data, 'plain': base, 'got': o,
+                                  'left': rest})
+            for mask in masks:
+                cuts = [i + 1 for i in range(L - 1) if mask >> i & 1]
+                chunks, prev = [], 0
+                for c in cuts + [len(data)]:
+                    chunks.append(data[prev:c])
+                    prev = c
+                for bufsize in (8192, 1, 3):
+                    rd = io.BufferedReader(ChunkedRaw(chunks), bufsize)
+                    o = outcome(T, rd)
+                    rest = rd.read()
+                    run.count('stream_kinds.partitions')
+                    if o != base or (ok_rest is not None and
+                                     rest != ok_rest):
+                        run.violation(
+                            'decode/%s/stream-kind/buffered-partial' % name,
+                            'decoding through a buffered reader whose buffer '
+                            'holds only part of the encoding differs from '
+                            'decoding the same bytes from a plain stream', {
+                                'data': data, 'chunks': [len(c) for c in
+                                                         chunks],
+                                'buffer_size': bufsize, 'plain': base,
+                                'got': o, 'left': rest,
+                                'expected_left': ok_rest})
+                        break
+            run.case(('stream-kinds', name, enc))
+
+
 def run(run):
     from minecraft.networking.types import VarInt, VarLong
     from minecraft.networking.packets import PacketBuffer
@@ -344,6 +443,8 @@ def run(run):
         run.sample({'decode': 'ff ff ff ff ff 01 -> VarInt', 'encode': 300,
                     'canonical': ref.encode(300)})
         run.sample({'negatives_tried': negs[:6]})
+    stream_kinds(run, types, thorough)
+    run.require('stream_kinds.partitions', 200)
     run.require('decode.returned', 100)
     run.require('decode.raised', 100)
     run.require('termination.line_events', 50)
